@@ -21,4 +21,5 @@ for n in names:
         sys.stderr.write('no type for %s\n%s\n' % (n, out[-2000:]))
         sys.exit(1)
     ty = ' '.join(m.group(1).split())
-    print('Theorem %s_%s : %s.\nProof. exact @%s. Qed.\nPrint Assumptions %s_%s.\n' % (prefix, n, ty, n, prefix, n))
+    pn = n if n.startswith(prefix + '_') else '%s_%s' % (prefix, n)
+    print('Theorem %s : %s.\nProof. exact @%s.%s. Qed.\nPrint Assumptions %s.\n' % (pn, ty, module, n, pn))
